@@ -234,7 +234,7 @@ func clipb(b []byte) []byte {
 var _ = pbt.Register(pbt.Spec[Case]{
 	Property: "C18", Name: "canonicalize",
 	Rule:     "root structs (depth<=4, all list kinds incl. data-only and pointer-bearing struct lists, nested lists, zero-sized structs, occasional big lists and >1KiB blobs so that the output arena grows; 1 in 5 with capability pointers, with and without live clients; 1 in 6 canonicalised as a member of a struct list) in a drawn encoding, plus a second encoding of the same value with different padding (trailing zero words / null pointers on structs and struct-list elements) and layout. Oracle: (1) output passes ref.CheckCanonical (single segment, preorder without gaps, no far/cap pointers, every struct and struct list truncated, zero-sized struct offset -1, zero padding, nothing trailing); (2) strict independent decode of the output is Identical to ref.Truncate(input); (3) both encodings give identical bytes; (4) canonicalising the output reproduces it; capability anywhere => error. Non-trivial: depth>=2 or capability present.",
-	Quick:    12000, Thorough: 120000,
+	Quick:    12000, Thorough: 400000,
 	Gen: func(t *rapid.T) Case {
 		caps := rapid.IntRange(0, 4).Draw(t, "caps") == 0
 		a := gen.ValueTree(t, gen.TreeOpts{MaxDepth: rapid.IntRange(0, 4).Draw(t, "depth"), Caps: caps, MaxCap: 8, RootStruct: true})
@@ -317,7 +317,7 @@ func runPrimElem(c primElemCase) (pbt.Result, error) {
 var _ = pbt.Register(pbt.Spec[primElemCase]{
 	Property: "C18", Name: "primitive-list-member",
 	Rule:     "Canonicalize applied to List.Struct(i) of 1/2/4/8-byte primitive lists (a struct whose data section is narrower than a word); oracle: valid canonical form that decodes to a struct holding the element value zero-extended to a word (empty struct if the element is zero). Non-trivial: element non-zero.",
-	Quick:    3000, Thorough: 20000,
+	Quick:    3000, Thorough: 80000,
 	Gen: func(t *rapid.T) primElemCase {
 		return primElemCase{
 			LK:   rapid.IntRange(2, 5).Draw(t, "lk"),
